@@ -700,6 +700,23 @@ func (s *PropertyExpressionVisitor) EnterOC_Atom(ctx *parser.OC_AtomContext) {
 
 func (s *PropertyExpressionVisitor) ExitOC_Atom(ctx *parser.OC_AtomContext) {
 	s.PropertyLookup.Atom = s.ctx.Exit().(*AtomVisitor).Atom
+
+	// count(*) is spelled with tokens of the atom rule itself and has no rule of its own
+	if HasTokens(ctx, parser.CypherLexerCOUNT) {
+		s.PropertyLookup.Atom = &cypher.FunctionInvocation{
+			Name:      "count",
+			Arguments: []cypher.Expression{cypher.GreedyRangeQuantifier},
+		}
+	}
+}
+
+func (s *PropertyExpressionVisitor) EnterOC_PropertyLookup(ctx *parser.OC_PropertyLookupContext) {
+	// Each further lookup in a chain (a.b.c) is a lookup on the one before it
+	if s.PropertyLookup.Symbol != "" {
+		s.PropertyLookup = &cypher.PropertyLookup{
+			Atom: s.PropertyLookup,
+		}
+	}
 }
 
 func (s *PropertyExpressionVisitor) EnterOC_PropertyKeyName(ctx *parser.OC_PropertyKeyNameContext) {
